@@ -197,12 +197,12 @@ Proof. intros; unfold upd. destruct (x =? k) eqn:E; [lia | reflexivity]. Qed.
 
 (** * Each operation preserves the invariant *)
 
-Lemma send_raw_inv : forall f u c d a tax s s' n,
-  table_wf (table s) -> Inv s -> send_raw f u c d a tax s = (s', Ok, n) ->
+Lemma send_raw_inv : forall f u c d a tax lim s s' n,
+  table_wf (table s) -> Inv s -> send_raw f u c d a tax lim s = (s', Ok, n) ->
   Inv s' /\ table s' = table s.
 Proof.
-  intros f u c d a tax s s' n WF [I1 I2 I3 I4] H. unfold send_raw in H.
-  destruct ((a <=? 0) || (tax <? 0)); [discriminate|].
+  intros f u c d a tax lim s s' n WF [I1 I2 I3 I4] H. unfold send_raw in H.
+  destruct ((a <=? 0) || lim || (tax <? 0)); [discriminate|].
   destruct (erc20_of (table s) c d) as [k|] eqn:EK; [|discriminate].
   destruct (f 0%nat || (bal s u d <? a + tax)); [discriminate|].
   destruct (f 1%nat); [discriminate|]. inversion H; subst; clear H.
@@ -454,54 +454,466 @@ Proof.
   - split; [exact I | reflexivity].
 Qed.
 
-Lemma step3_inv : forall s o s' out n,
-  table_wf (table s) -> Inv s -> step3 s o = (s', out, n) -> Inv s' /\ table s' = table s.
+Lemma run_app : forall s l1 l2, run s (l1 ++ l2) = run (run s l1) l2.
+Proof. intros; unfold run; apply fold_left_app. Qed.
+
+Definition is_map (o : op) : bool :=
+  match o with OMapGov _ _ _ | OMapAdmin _ _ _ _ _ => true | _ => false end.
+Definition is_full (o : op) : bool :=
+  match o with OEndBlockFull _ _ _ _ _ _ => true | _ => false end.
+
+(** * The whole end-blocker is a run of all-or-nothing sub-steps, whatever panics *)
+Lemma step3_inv_sub : forall s o s' out n,
+  sub_op o = true -> Inv s -> step3 s o = (s', out, n) -> Inv s' /\ table s' = table s.
 Proof.
-  intros s o s' out n WF I H. destruct o; simpl in H.
-  - eapply atomic_inv; eauto. intros; eapply send_raw_inv; eauto.
-  - eapply atomic_inv; eauto. intros; eapply cancel_raw_inv; eauto.
+  intros s o s' out n S I H. destruct o; simpl in S; try discriminate; simpl in H.
   - eapply build_inv; eauto.
   - eapply cancel_batch_inv; eauto.
   - eapply atomic_inv; eauto. intros; eapply set_gas_raw_inv; eauto.
   - eapply atomic_inv; eauto. intros; eapply executed_raw_inv; eauto.
   - eapply atomic_inv; eauto. intros; eapply deposit_raw_inv; eauto.
-  - eapply create_batch_inv; eauto.
-  - unfold sweep in H. eapply sweep_loop_inv; eauto.
-  - unfold end_block in H.
+Qed.
+
+Lemma run_sub_inv : forall tr s,
+  Forall (fun o => sub_op o = true) tr -> Inv s -> Inv (run s tr) /\ table (run s tr) = table s.
+Proof.
+  induction tr as [|a r IH]; intros s F I; simpl; [split; [exact I | reflexivity]|].
+  inversion F as [|? ? Fa Fr]; subst.
+  destruct (step3 s a) as [[s1 o1] n1] eqn:E.
+  assert (E1 : fst (step s a) = s1) by (unfold step; now rewrite E).
+  rewrite E1. destruct (step3_inv_sub _ _ _ _ _ Fa I E) as [I1 T1].
+  destruct (IH s1 Fr I1) as [I2 T2]. split; [exact I2 | congruence].
+Qed.
+
+Definition eb_ok (s0 : state) (x : eb) : Prop :=
+  eb_s x = run s0 (eb_tr x) /\ Forall (fun o => sub_op o = true) (eb_tr x).
+
+Lemma eb_sub_ok : forall f pf runner mk s0 x x' out,
+  (forall g s, runner g s = step3 s (mk g)) -> (forall g, sub_op (mk g) = true) ->
+  eb_ok s0 x -> eb_sub f pf runner mk x = (x', out) -> eb_ok s0 x'.
+Proof.
+  intros f pf runner mk s0 x x' out HR HS [E F] H. unfold eb_sub in H.
+  destruct (eb_dead x); [inversion H; subst; split; assumption|].
+  destruct (runner (shift (either f pf) (eb_n x)) (eb_s x)) as [[s1 o1] m] eqn:ER.
+  destruct (first_panic pf (eb_n x) m).
+  - inversion H; subst. unfold eb_ok; cbn [eb_s eb_tr]. split; assumption.
+  - inversion H; subst. unfold eb_ok; cbn [eb_s eb_tr]. split.
+    + rewrite run_app, <- E. unfold run at 1. cbn [fold_left]. unfold step. rewrite <- HR, ER. reflexivity.
+    + apply Forall_app. split; [exact F | constructor; [apply HS | constructor]].
+Qed.
+
+Lemma eb_call_ok : forall f pf s0 x x' b, eb_ok s0 x -> eb_call f pf x = (x', b) -> eb_ok s0 x'.
+Proof.
+  intros f pf s0 x x' b G H. unfold eb_call in H.
+  destruct (eb_dead x); [inversion H; subst; exact G|].
+  destruct (pf (eb_n x)); inversion H; subst; exact G.
+Qed.
+
+Lemma eb_create_ok : forall f pf es now s0 x x' out,
+  eb_ok s0 x -> eb_create f pf es now x = (x', out) -> eb_ok s0 x'.
+Proof.
+  intros f pf es; induction es as [|[[c d] k0] r IH]; intros now s0 x x' out G H; simpl in H.
+  - inversion H; subst; exact G.
+  - destruct (eb_dead x); [inversion H; subst; exact G|].
+    destruct (erc20_of (table (eb_s x)) c d) as [k|]; [|inversion H; subst; exact G].
+    destruct (eb_sub f pf (fun g s => build g c k batch_size now s) (fun g => OBuild c k batch_size now g) x)
+      as [x1 o1] eqn:ES.
+    apply eb_sub_ok with (s0 := s0) in ES; [|intros; reflexivity|intros; reflexivity|exact G].
+    destruct o1; [eapply IH; eauto | inversion H; subst; exact ES].
+Qed.
+
+Lemma ev_run_step3 : forall e g s, ev_run e g s = step3 s (ev_op e g).
+Proof. destruct e; reflexivity. Qed.
+Lemma ev_op_sub : forall e g, sub_op (ev_op e g) = true.
+Proof. destruct e; reflexivity. Qed.
+
+Lemma eb_tally_ok : forall f pf evs s0 x, eb_ok s0 x -> eb_ok s0 (eb_tally f pf evs x).
+Proof.
+  intros f pf evs; induction evs as [|e r IH]; intros s0 x G; simpl; [exact G|].
+  destruct (eb_sub f pf (ev_run e) (ev_op e) x) as [x1 o1] eqn:ES.
+  apply eb_sub_ok with (s0 := s0) in ES; [|apply ev_run_step3|apply ev_op_sub|exact G].
+  destruct (eb_call f pf x1) as [x2 ok] eqn:EC. apply eb_call_ok with (s0 := s0) in EC; [|exact ES].
+  destruct ok; [apply IH; exact EC | exact EC].
+Qed.
+
+Lemma eb_gas_ok : forall f pf ests s0 x, eb_ok s0 x -> eb_ok s0 (eb_gas f pf ests x).
+Proof.
+  intros f pf ests; induction ests as [|[[k n] est] r IH]; intros s0 x G; simpl; [exact G|].
+  destruct (eb_sub f pf (fun g s => atomically s (set_gas_raw g k n est s)) (fun g => OSetGas k n est g) x)
+    as [x1 o1] eqn:ES.
+  apply eb_sub_ok with (s0 := s0) in ES; [|intros; reflexivity|intros; reflexivity|exact G].
+  apply IH; exact ES.
+Qed.
+
+Lemma eb_sweep_ok : forall f pf bs now s0 x x' out,
+  eb_ok s0 x -> eb_sweep f pf bs now x = (x', out) -> eb_ok s0 x'.
+Proof.
+  intros f pf bs; induction bs as [|b r IH]; intros now s0 x x' out G H; simpl in H.
+  - inversion H; subst; exact G.
+  - destruct (b_timeout b <? now); [|eapply IH; eauto].
+    destruct (eb_sub f pf (fun g s => cancel_batch g (b_contract b) (b_nonce b) s)
+                          (fun g => OCancelBatch (b_contract b) (b_nonce b) g) x) as [x1 o1] eqn:ES.
+    apply eb_sub_ok with (s0 := s0) in ES; [|intros; reflexivity|intros; reflexivity|exact G].
+    destruct o1; [eapply IH; eauto | inversion H; subst; exact ES].
+Qed.
+
+Lemma end_block_full_ok : forall f pf h now groups ests s,
+  eb_ok s (end_block_full f pf h now groups ests s).
+Proof.
+  intros f pf h now groups ests s. unfold end_block_full.
+  assert (G0 : eb_ok s (mkEB s 0%nat [] false)) by (split; [reflexivity | constructor]).
+  set (x0 := mkEB s 0%nat [] false) in *.
+  set (x1 := if h mod batch_period =? 0 then fst (eb_create f pf (d2e_rows (table s)) now x0) else x0).
+  assert (G1 : eb_ok s x1).
+  { subst x1. destruct (h mod batch_period =? 0); [|exact G0].
+    destruct (eb_create f pf (d2e_rows (table s)) now x0) as [y o] eqn:E. simpl.
+    eapply eb_create_ok; eauto. }
+  assert (G2 : forall gs x, eb_ok s x -> eb_ok s (fold_left (fun x evs => eb_tally f pf evs x) gs x)).
+  { induction gs as [|g r IH]; intros x G; simpl; [exact G|]. apply IH. apply eb_tally_ok. exact G. }
+  set (x2 := fold_left (fun x evs => eb_tally f pf evs x) groups x1).
+  assert (G3 : eb_ok s (eb_gas f pf ests x2)) by (apply eb_gas_ok, G2, G1).
+  destruct (eb_sweep f pf (batches (eb_s (eb_gas f pf ests x2))) now (eb_gas f pf ests x2)) as [y o] eqn:E.
+  simpl. eapply eb_sweep_ok; eauto.
+Qed.
+
+(** what the whole end-blocker leaves is what the sub-steps it completed left, in order *)
+Lemma step_full_run : forall s h now groups ests f pf,
+  fst (step s (OEndBlockFull h now groups ests f pf)) = run s (eb_tr (end_block_full f pf h now groups ests s)).
+Proof.
+  intros. unfold step. simpl. apply (proj1 (end_block_full_ok f pf h now groups ests s)).
+Qed.
+
+(** * Every operation that does not write the denom table preserves the invariant *)
+Lemma step3_inv : forall s o s' out n,
+  is_map o = false -> table_wf (table s) -> Inv s -> step3 s o = (s', out, n) -> Inv s' /\ table s' = table s.
+Proof.
+  intros s o s' out n NM WF I H. destruct o; try (simpl in NM; discriminate NM).
+  - simpl in H. eapply atomic_inv; eauto. intros; eapply send_raw_inv; eauto.
+  - simpl in H. eapply atomic_inv; eauto. intros; eapply cancel_raw_inv; eauto.
+  - simpl in H. eapply build_inv; eauto.
+  - simpl in H. eapply cancel_batch_inv; eauto.
+  - simpl in H. eapply atomic_inv; eauto. intros; eapply set_gas_raw_inv; eauto.
+  - simpl in H. eapply atomic_inv; eauto. intros; eapply executed_raw_inv; eauto.
+  - simpl in H. eapply atomic_inv; eauto. intros; eapply deposit_raw_inv; eauto.
+  - simpl in H. eapply create_batch_inv; eauto.
+  - simpl in H. unfold sweep in H. eapply sweep_loop_inv; eauto.
+  - simpl in H. unfold end_block in H.
     destruct (create_batch f 0%nat h now s) as [[s1 o1] n1] eqn:E1.
     destruct (sweep f n1 now s1) as [[s2 o2] n2] eqn:E2.
     inversion H; subst. apply create_batch_inv in E1 as [I1 T1]; [|exact I].
     unfold sweep in E2. apply sweep_loop_inv in E2 as [I2 T2]; [|exact I1].
     split; [exact I2 | congruence].
-  - inversion H; subst. split; [exact I | reflexivity].
+  - simpl in H. inversion H; subst. split; [exact I | reflexivity].
+  - cbn [step3] in H. inversion H; subst.
+    destruct (end_block_full_ok f pf h now groups ests s) as [E F]. rewrite E.
+    apply run_sub_inv; assumption.
 Qed.
 
-Lemma step_inv : forall s o, table_wf (table s) -> Inv s ->
+Lemma step_inv : forall s o, is_map o = false -> table_wf (table s) -> Inv s ->
   Inv (fst (step s o)) /\ table (fst (step s o)) = table s.
 Proof.
-  intros s o WF I. unfold step. destruct (step3 s o) as [[s' out] n] eqn:E. simpl.
+  intros s o NM WF I. unfold step. destruct (step3 s o) as [[s' out] n] eqn:E. simpl.
   eapply step3_inv; eauto.
 Qed.
 
-Lemma run_inv : forall ops s, table_wf (table s) -> Inv s ->
-  Inv (run s ops) /\ table (run s ops) = table s.
+(** * What a pending transfer owes is fixed when it is sent *)
+(** No operation rewrites a pending transfer record: every record pending after a step was pending
+    before it, or is the one a successful send has just created from its inputs (amount and the
+    tax charged at send time).  Together with [cancel_ok_refunds_in_full] / [executed_ok_burns_batch]
+    (refund and burn use [owed t] of the stored record): governance changes of the tax settings
+    between send and cancel / execution cannot change what is refunded or burned. *)
+Lemma build_pending : forall f c k max now s s' out n,
+  build f c k max now s = (s', out, n) -> Permutation (pending s') (pending s).
 Proof.
-  induction ops as [|o r IH]; intros s WF I; simpl.
-  - split; [exact I | reflexivity].
-  - destruct (step_inv s o WF I) as [I1 T1].
-    destruct (IH (fst (step s o))) as [I2 T2]; [now rewrite T1 | exact I1 |].
-    split; [exact I2 | congruence].
+  intros f c k max now s s' out n H. unfold build in H.
+  apply atomically_cases in H as [[-> H]|[-> ->]]; [|reflexivity].
+  unfold build_raw in H. destruct (max <=? 0); [discriminate|].
+  destruct (pick c k (Z.to_nat max) (pool s)) as [picked rest] eqn:EP. destruct picked as [|t0 pk].
+  - inversion H; reflexivity.
+  - destruct (f 0%nat); [discriminate|]. simpl in H. destruct (f 1%nat); [discriminate|].
+    destruct (f 2%nat); [discriminate|]. inversion H; subst s' n; clear H.
+    pose proof (pick_perm _ _ _ _ _ _ EP) as HP.
+    unfold pending; simpl.
+    rewrite (flat_map_perm _ _ b_txs _ _ (batch_insert_perm _ _)). simpl.
+    rewrite <- HP. change (t0 :: pk ++ flat_map b_txs (batches s)) with ((t0 :: pk) ++ flat_map b_txs (batches s)).
+    rewrite app_assoc. apply Permutation_app_tail. apply Permutation_app_comm.
+Qed.
+
+Lemma cancel_batch_pending : forall f k n s s' out m,
+  cancel_batch f k n s = (s', out, m) -> Permutation (pending s') (pending s).
+Proof.
+  intros f k n s s' out m H. unfold cancel_batch in H.
+  apply atomically_cases in H as [[-> H]|[-> ->]]; [|reflexivity].
+  unfold cancel_batch_raw in H.
+  destruct (find_batch k n (batches s)) as [b|] eqn:EF; [|discriminate]. simpl in H.
+  destruct (f 0%nat); [discriminate|]. inversion H; subst s' m; clear H.
+  pose proof (find_remove_first_perm _ _ _ _ EF) as HP.
+  unfold pending; simpl. rewrite pool_insert_all_perm.
+  rewrite (flat_map_perm _ _ b_txs _ _ HP). simpl.
+  rewrite <- !app_assoc. rewrite (app_assoc (b_txs b)). rewrite (app_assoc (pool s)).
+  apply Permutation_app_tail. apply Permutation_app_comm.
+Qed.
+
+Lemma create_loop_pending : forall f es n now s s' out m,
+  create_loop f n es now s = (s', out, m) -> Permutation (pending s') (pending s).
+Proof.
+  intros f es; induction es as [|[[c d] k0] r IH]; intros n now s s' out m H; simpl in H.
+  - inversion H; reflexivity.
+  - destruct (erc20_of (table s) c d) as [k|]; [|inversion H; reflexivity].
+    destruct (build (shift f n) c k batch_size now s) as [[s1 o1] m1] eqn:EB.
+    apply build_pending in EB. destruct o1.
+    + apply IH in H. etransitivity; eauto.
+    + inversion H; subst; exact EB.
+Qed.
+
+Lemma sweep_loop_pending : forall f bs n now s s' out m,
+  sweep_loop f n bs now s = (s', out, m) -> Permutation (pending s') (pending s).
+Proof.
+  intros f bs; induction bs as [|b r IH]; intros n now s s' out m H; simpl in H.
+  - inversion H; reflexivity.
+  - destruct (b_timeout b <? now); [|eapply IH; eauto].
+    destruct (cancel_batch (shift f n) (b_contract b) (b_nonce b) s) as [[s1 o1] m1] eqn:EB.
+    apply cancel_batch_pending in EB. destruct o1.
+    + apply IH in H. etransitivity; eauto.
+    + inversion H; subst; exact EB.
+Qed.
+
+Lemma create_batch_pending : forall f n h now s s' out m,
+  create_batch f n h now s = (s', out, m) -> Permutation (pending s') (pending s).
+Proof.
+  intros f n h now s s' out m H. unfold create_batch in H.
+  destruct (h mod batch_period =? 0); [eapply create_loop_pending; eauto | inversion H; reflexivity].
+Qed.
+
+Lemma to_comm_pending : forall f idx d a s s' out m,
+  to_comm f idx d a s = (s', out, m) -> pending s' = pending s.
+Proof.
+  intros f idx d a s s' out m H. unfold to_comm in H. destruct (f idx); inversion H; reflexivity.
+Qed.
+
+Lemma pending_step_nf : forall s o s' out t,
+  is_full o = false -> step s o = (s', out) -> In t (pending s') ->
+  In t (pending s) \/
+  exists u c d a tax lim f k, o = OSend u c d a tax lim f /\ out = Ok /\ erc20_of (table s) c d = Some k /\
+                          t = mkT (last_tx s + 1) u c k a tax.
+Proof.
+  intros s o s' out t NF H HI. unfold step in H. destruct (step3 s o) as [[s1 o1] n] eqn:E. simpl in H.
+  inversion H; subst s1 o1; clear H.
+  destruct o; try (simpl in NF; discriminate NF); simpl in E.
+  - (* send *) apply atomically_cases in E as [[-> E]|[-> ->]]; [|now left].
+    unfold send_raw in E. destruct ((a <=? 0) || lim || (tax <? 0)); [discriminate|].
+    destruct (erc20_of (table s) c d) as [k|] eqn:EK; [|discriminate].
+    destruct (f 0%nat || _); [discriminate|]. destruct (f 1%nat); [discriminate|].
+    inversion E; subst s' n; clear E. unfold pending in HI; simpl in HI.
+    apply in_app_or in HI as [HI|HI].
+    + apply (Permutation_in _ (pool_insert_perm _ _)) in HI. destruct HI as [HI|HI].
+      * right. exists u, c, d, a, tax, lim, f, k. repeat split; auto.
+      * left. unfold pending. apply in_or_app. now left.
+    + left. unfold pending. apply in_or_app. now right.
+  - (* cancel *) left. apply atomically_cases in E as [[-> E]|[-> ->]]; [|exact HI].
+    unfold cancel_raw in E. destruct (i <? 1); [discriminate|].
+    destruct (find (fun t => t_id t =? i) (pool s)) as [t0|] eqn:EF; [|discriminate].
+    destruct (negb (t_sender t0 =? u)); [discriminate|].
+    destruct (tx_denom (table s) t0); [|discriminate]. simpl in E.
+    destruct (f 0%nat || _); [discriminate|]. destruct (f 1%nat); [discriminate|].
+    inversion E; subst s' n; clear E. unfold pending in *; simpl in HI.
+    pose proof (find_remove_first_perm _ _ _ _ EF) as HP.
+    apply in_app_or in HI as [HI|HI]; apply in_or_app; [left|now right].
+    apply (Permutation_in _ (Permutation_sym HP)). now right.
+  - left. apply build_pending in E. eapply Permutation_in; eauto.
+  - left. apply cancel_batch_pending in E. eapply Permutation_in; eauto.
+  - (* set gas *) left. apply atomically_cases in E as [[-> E]|[-> ->]]; [|exact HI].
+    unfold set_gas_raw in E. destruct (find_batch k n0 (batches s)) as [b|]; [|discriminate].
+    destruct (0 <? b_gas b); [discriminate|]. destruct (f 0%nat); [discriminate|].
+    inversion E; subst s' n; clear E. unfold pending in *; simpl in HI.
+    now rewrite flat_map_set_gas in HI.
+  - (* executed *) left. apply atomically_cases in E as [[-> E]|[-> ->]]; [|exact HI].
+    unfold executed_raw in E. destruct (find_batch k n0 (batches s)) as [b|] eqn:EF; [|discriminate].
+    destruct (negb (b_chain b =? c)); [discriminate|]. destruct (b_timeout b <=? eth); [discriminate|].
+    destruct (denom_of (table s) c k); [|discriminate]. destruct (f 0%nat || _); [discriminate|].
+    inversion E; subst s' n; clear E. unfold pending in *; simpl in HI.
+    pose proof (find_remove_first_perm _ _ _ _ EF) as HP.
+    apply in_app_or in HI as [HI|HI]; apply in_or_app; [now left | right].
+    apply (Permutation_in _ (Permutation_sym (flat_map_perm _ _ b_txs _ _ HP))). simpl.
+    apply in_or_app. now right.
+  - (* deposit *) left. apply atomically_cases in E as [[-> E]|[-> ->]]; [|exact HI].
+    unfold deposit_raw in E. destruct (denom_of (table s) c k) as [d|]; [|discriminate].
+    destruct (f 0%nat || (a <=? 0)); [discriminate|].
+    destruct r as [u| |].
+    + destruct (f 1%nat).
+      * apply to_comm_pending in E. rewrite E in HI. exact HI.
+      * inversion E; subst. exact HI.
+    + apply to_comm_pending in E. rewrite E in HI. exact HI.
+    + apply to_comm_pending in E. rewrite E in HI. exact HI.
+  - left. apply create_batch_pending in E. eapply Permutation_in; eauto.
+  - left. unfold sweep in E. apply sweep_loop_pending in E. eapply Permutation_in; eauto.
+  - left. unfold end_block in E.
+    destruct (create_batch f 0%nat h now s) as [[s1 o1] n1] eqn:E1.
+    destruct (sweep f n1 now s1) as [[s2 o2] n2] eqn:E2. inversion E; subst.
+    apply create_batch_pending in E1. unfold sweep in E2. apply sweep_loop_pending in E2.
+    eapply Permutation_in; [|exact HI]. etransitivity; eauto.
+  - left. inversion E; subst. exact HI.
+  - (* governance writes the denom table *) left. inversion E; subst. exact HI.
+  - (* token admin writes the denom table *) left.
+    apply atomically_cases in E as [[-> E]|[-> ->]]; [|exact HI].
+    unfold map_admin_raw in E. destruct (f 0%nat); [discriminate|]. destruct (negb auth); [discriminate|].
+    destruct (denom_of (table s) c k); [discriminate|]. inversion E; subst. exact HI.
+Qed.
+
+Lemma sub_not_full : forall o, sub_op o = true -> is_full o = false.
+Proof. destruct o; simpl; intros; try discriminate; reflexivity. Qed.
+
+Lemma run_sub_pending : forall tr s t,
+  Forall (fun o => sub_op o = true) tr -> In t (pending (run s tr)) -> In t (pending s).
+Proof.
+  induction tr as [|a r IH]; intros s t F HI; simpl in HI; [exact HI|].
+  inversion F as [|? ? Fa Fr]; subst. apply IH in HI; [|exact Fr].
+  destruct (step s a) as [s1 o1] eqn:E. simpl in HI.
+  destruct (pending_step_nf s a s1 o1 t (sub_not_full _ Fa) E HI) as [X|X]; [exact X|].
+  destruct X as (u & c & d & a0 & tax & lim & f & k & Eo & _). subst a. discriminate Fa.
+Qed.
+
+Theorem pending_records_immutable_proof : forall s o s' out t,
+  step s o = (s', out) -> In t (pending s') ->
+  In t (pending s) \/
+  exists u c d a tax lim f k, o = OSend u c d a tax lim f /\ out = Ok /\ erc20_of (table s) c d = Some k /\
+                          t = mkT (last_tx s + 1) u c k a tax.
+Proof.
+  intros s o s' out t H HI. destruct (is_full o) eqn:NF; [|eapply pending_step_nf; eauto].
+  left. destruct o; try (simpl in NF; discriminate NF).
+  assert (X : s' = fst (step s (OEndBlockFull h now groups ests f pf))) by now rewrite H.
+  subst s'. rewrite step_full_run in HI.
+  eapply run_sub_pending; [apply end_block_full_ok | exact HI].
+Qed.
+
+
+
+(** * Governance and token admins write the denom table while transfers are pending *)
+Definition mapped (tb : list entry) (t : transfer) : Prop := tx_denom tb t <> None.
+
+Record InvT (s : state) : Prop := {
+  it_inv : Inv s;
+  it_wf : table_wf (table s);
+  it_mapped : Forall (mapped (table s)) (pending s)
+}.
+
+Lemma init_InvT : forall tb b0 sup0, table_wf tb -> InvT (init tb b0 sup0).
+Proof. intros; constructor; [apply init_inv | exact H | constructor]. Qed.
+
+Lemma tx_denom_cons : forall c d k tb t,
+  tx_denom ((c, d, k) :: tb) t = if (c =? t_chain t) && (k =? t_contract t) then Some d else tx_denom tb t.
+Proof. reflexivity. Qed.
+
+Lemma sum_for_ext : forall tb1 tb2 d l,
+  (forall t, In t l -> tx_denom tb1 t = tx_denom tb2 t) -> sum_for tb1 d l = sum_for tb2 d l.
+Proof.
+  intros tb1 tb2 d l; induction l as [|t r IH]; intros H; [reflexivity|].
+  rewrite !sum_for_cons. rewrite IH by (intros; apply H; now right).
+  unfold contrib. rewrite (H t) by now left. reflexivity.
+Qed.
+
+(** the guard: the contract is unbound on that chain, or bound to the very same denom *)
+Definition rebind_free (tb : list entry) (c d k : Z) : Prop :=
+  denom_of tb c k = None \/ denom_of tb c k = Some d.
+
+Lemma tx_denom_stable : forall tb c d k t,
+  rebind_free tb c d k -> mapped tb t -> tx_denom ((c, d, k) :: tb) t = tx_denom tb t.
+Proof.
+  intros tb c d k t G M. rewrite tx_denom_cons.
+  destruct ((c =? t_chain t) && (k =? t_contract t)) eqn:E; [|reflexivity].
+  apply andb_true_iff in E as [A B]. apply Z.eqb_eq in A, B.
+  unfold mapped, tx_denom in *. rewrite <- A, <- B in *.
+  destruct G as [G|G]; [congruence | now rewrite G].
+Qed.
+
+Lemma map_set_InvT : forall s c d k,
+  InvT s -> rebind_free (table s) c d k -> InvT (map_set c d k s).
+Proof.
+  intros s c d k [[I1 I2 I3 I4] WF M] G. constructor.
+  - constructor.
+    + intros d'. change (escrow (map_set c d k s) d') with (escrow s d').
+      change (pending (map_set c d k s)) with (pending s).
+      change (table (map_set c d k s)) with ((c, d, k) :: table s).
+      rewrite I1. apply sum_for_ext. intros t HI. symmetry. apply tx_denom_stable; [exact G|].
+      rewrite Forall_forall in M. now apply M.
+    + exact I2.
+    + exact I3.
+    + exact I4.
+  - change (table (map_set c d k s)) with ((c, d, k) :: table s).
+    intros c' d' k' H. simpl in H. simpl.
+    destruct ((c =? c') && (d =? d')) eqn:E.
+    + apply andb_true_iff in E as [A B]. apply Z.eqb_eq in A, B. inversion H; subst.
+      now rewrite !Z.eqb_refl.
+    + apply WF in H. destruct ((c =? c') && (k =? k')) eqn:E2; [|exact H].
+      apply andb_true_iff in E2 as [A B]. apply Z.eqb_eq in A, B. subst.
+      destruct G as [G|G]; congruence.
+  - change (table (map_set c d k s)) with ((c, d, k) :: table s).
+    change (pending (map_set c d k s)) with (pending s).
+    eapply Forall_impl; [|exact M]. intros t Mt. unfold mapped in *.
+    rewrite tx_denom_stable; assumption.
+Qed.
+
+Lemma step_InvT : forall s o, InvT s -> gov_ok s o = true -> InvT (fst (step s o)).
+Proof.
+  intros s o IT G. destruct (is_map o) eqn:NM.
+  - destruct o; try (simpl in NM; discriminate NM).
+    + (* governance path *) unfold step; simpl. apply map_set_InvT; [exact IT|].
+      simpl in G. unfold rebind_free. destruct (denom_of (table s) c k) as [d'|]; [|now left].
+      right. apply Z.eqb_eq in G. now subst.
+    + (* token admin: the handler checks the guard itself *) unfold step; simpl.
+      destruct (atomically s (map_admin_raw f c d k auth s)) as [[s1 o1] n] eqn:E. simpl.
+      apply atomically_cases in E as [[_ E]|[_ ->]]; [|exact IT].
+      unfold map_admin_raw in E. destruct (f 0%nat); [discriminate|]. destruct (negb auth); [discriminate|].
+      destruct (denom_of (table s) c k) eqn:ED; [discriminate|]. inversion E; subst.
+      apply map_set_InvT; [exact IT | now left].
+  - destruct IT as [I WF M].
+    destruct (step_inv s o NM WF I) as [I1 T1]. constructor.
+    + exact I1.
+    + now rewrite T1.
+    + rewrite T1. apply Forall_forall. intros t HI.
+      destruct (step s o) as [s' out] eqn:E. simpl in HI.
+      destruct (pending_records_immutable_proof s o s' out t E HI) as [X|X].
+      * rewrite Forall_forall in M. now apply M.
+      * destruct X as (u & c & d & a & tax & lim & f & k & _ & _ & EK & ->).
+        unfold mapped, tx_denom. simpl. apply WF in EK. congruence.
+Qed.
+
+Lemma run_InvT : forall ops s, InvT s -> guarded s ops = true -> InvT (run s ops).
+Proof.
+  induction ops as [|o r IH]; intros s IT G; simpl; [exact IT|].
+  simpl in G. apply andb_true_iff in G as [G1 G2]. apply IH; [apply step_InvT; assumption | exact G2].
+Qed.
+
+(** which denom a pending transfer is refunded / burned in cannot be changed under the guard *)
+Theorem pending_denom_stable_proof : forall s o t,
+  InvT s -> gov_ok s o = true -> In t (pending s) ->
+  tx_denom (table (fst (step s o))) t = tx_denom (table s) t.
+Proof.
+  intros s o t IT G HI. destruct (is_map o) eqn:NM.
+  - assert (Mt : mapped (table s) t).
+    { pose proof (it_mapped _ IT) as M. rewrite Forall_forall in M. now apply M. }
+    destruct o; try (simpl in NM; discriminate NM).
+    + unfold step; simpl. apply tx_denom_stable; [|exact Mt].
+      simpl in G. unfold rebind_free. destruct (denom_of (table s) c k) as [d'|]; [|now left].
+      right. apply Z.eqb_eq in G. now subst.
+    + unfold step; simpl.
+      destruct (atomically s (map_admin_raw f c d k auth s)) as [[s1 o1] n] eqn:E. simpl.
+      apply atomically_cases in E as [[_ E]|[_ ->]]; [|reflexivity].
+      unfold map_admin_raw in E. destruct (f 0%nat); [discriminate|]. destruct (negb auth); [discriminate|].
+      destruct (denom_of (table s) c k) eqn:ED; [discriminate|]. inversion E; subst.
+      apply tx_denom_stable; [now left | exact Mt].
+  - destruct (step_inv s o NM (it_wf _ IT) (it_inv _ IT)) as [_ T1]. now rewrite T1.
 Qed.
 
 (** * Theorem 1: escrow = sum over pending transfers *)
 Theorem escrow_eq_pending_proof : forall tb b0 sup0 ops d,
-  table_wf tb ->
+  table_wf tb -> guarded (init tb b0 sup0) ops = true ->
   let s := run (init tb b0 sup0) ops in
-  escrow s d = sum_for tb d (pending s).
+  escrow s d = sum_for (table s) d (pending s).
 Proof.
-  intros tb b0 sup0 ops d WF s.
-  destruct (run_inv ops (init tb b0 sup0) WF (init_inv tb b0 sup0)) as [I T].
-  fold s in I, T. simpl in T. rewrite <- T. apply (inv_escrow _ I).
+  intros tb b0 sup0 ops d WF G s.
+  pose proof (run_InvT ops _ (init_InvT tb b0 sup0 WF) G) as IT. fold s in IT.
+  apply (inv_escrow _ (it_inv _ IT)).
 Qed.
 
 (** * Theorem 2: every accepted transfer is in exactly one place *)
@@ -512,13 +924,13 @@ Proof.
 Qed.
 
 Theorem transfer_in_exactly_one_place_proof : forall tb b0 sup0 ops i,
-  table_wf tb ->
+  table_wf tb -> guarded (init tb b0 sup0) ops = true ->
   let s := run (init tb b0 sup0) ops in
   accepted s i ->
   (occ (pool_ids s) i + occ (batch_ids s) i + occ (refunded s) i + occ (burned s) i = 1)%nat.
 Proof.
-  intros tb b0 sup0 ops i WF s A.
-  destruct (run_inv ops (init tb b0 sup0) WF (init_inv tb b0 sup0)) as [I _]. fold s in I.
+  intros tb b0 sup0 ops i WF G s A.
+  pose proof (it_inv _ (run_InvT ops _ (init_InvT tb b0 sup0 WF) G)) as I. fold s in I.
   rewrite <- places_split, (inv_count _ I). unfold in_range, accepted in *.
   destruct ((1 <=? i) && (i <=? last_tx s)) eqn:E; [reflexivity|].
   apply andb_false_iff in E as [E|E]; lia.
@@ -526,13 +938,13 @@ Qed.
 
 (** ids that were never accepted are nowhere *)
 Theorem unaccepted_nowhere_proof : forall tb b0 sup0 ops i,
-  table_wf tb ->
+  table_wf tb -> guarded (init tb b0 sup0) ops = true ->
   let s := run (init tb b0 sup0) ops in
   ~ accepted s i ->
   (occ (pool_ids s) i + occ (batch_ids s) i + occ (refunded s) i + occ (burned s) i = 0)%nat.
 Proof.
-  intros tb b0 sup0 ops i WF s A.
-  destruct (run_inv ops (init tb b0 sup0) WF (init_inv tb b0 sup0)) as [I _]. fold s in I.
+  intros tb b0 sup0 ops i WF G s A.
+  pose proof (it_inv _ (run_InvT ops _ (init_InvT tb b0 sup0 WF) G)) as I. fold s in I.
   rewrite <- places_split, (inv_count _ I). unfold in_range, accepted in *.
   destruct ((1 <=? i) && (i <=? last_tx s)) eqn:E; [|reflexivity].
   apply andb_true_iff in E as [E1 E2]. lia.
@@ -587,14 +999,16 @@ Proof.
     + apply IH.
 Qed.
 
-Lemma run_app : forall s l1 l2, run s (l1 ++ l2) = run (run s l1) l2.
-Proof. intros; unfold run; apply fold_left_app. Qed.
-
 Theorem housekeeping_is_atomic_steps_proof : forall s o,
   atomic_op o = false ->
   exists subs, Forall (fun x => atomic_op x = true) subs /\ fst (step s o) = run s subs.
 Proof.
-  intros s o A. destruct o; simpl in A; try discriminate; unfold step; simpl.
+  intros s o A. destruct o; simpl in A; try discriminate.
+  4:{ (* the whole end-blocker, panics included *)
+      exists (eb_tr (end_block_full f pf h now groups ests s)). split; [|apply step_full_run].
+      eapply Forall_impl; [|apply (proj2 (end_block_full_ok f pf h now groups ests s))].
+      intros o So. destruct o; simpl in So; try discriminate; reflexivity. }
+  all: unfold step; simpl.
   - unfold create_batch. destruct (h mod batch_period =? 0).
     + apply create_loop_run.
     + exists []. split; [constructor | reflexivity].
@@ -604,7 +1018,7 @@ Proof.
     destruct (sweep f n1 now s1) as [[s2 o2] n2] eqn:E2. simpl.
     assert (exists l1, Forall (fun x => atomic_op x = true) l1 /\ s1 = run s l1) as (l1 & F1 & R1).
     { unfold create_batch in E1. destruct (h mod batch_period =? 0).
-      - destruct (create_loop_run f (table s) 0%nat now s) as (l & F & R). exists l. split; [exact F|].
+      - destruct (create_loop_run f (d2e_rows (table s)) 0%nat now s) as (l & F & R). exists l. split; [exact F|].
         rewrite E1 in R. exact R.
       - inversion E1; subst. exists []. split; [constructor | reflexivity]. }
     destruct (sweep_loop_run f (batches s1) n1 now s1) as (l2 & F2 & R2).
@@ -672,15 +1086,15 @@ Proof.
   intros f idx d a s s' out m H O. unfold to_comm in H. destruct (f idx); inversion H; subst; [discriminate | reflexivity].
 Qed.
 
-Lemma step_supply : forall s o s' out d,
-  Inv s -> step s o = (s', out) ->
-  supply s' d - supply s d = dep_amount s o out d - exe_amount s o out d.
+Lemma step_supply1 : forall s o s' out d,
+  is_full o = false -> Inv s -> step s o = (s', out) ->
+  supply s' d - supply s d = dep_amount1 s o out d - exe_amount1 s o out d.
 Proof.
-  intros s o s' out d I H. unfold step in H. destruct (step3 s o) as [[s1 o1] n] eqn:E. simpl in H.
+  intros s o s' out d NF I H. unfold step in H. destruct (step3 s o) as [[s1 o1] n] eqn:E. simpl in H.
   inversion H; subst s1 o1; clear H.
-  destruct o; simpl in E.
+  destruct o; try (simpl in NF; discriminate NF); simpl in E.
   - (* send *) apply atomically_cases in E as [[-> E]|[-> ->]]; [|simpl; lia].
-    unfold send_raw in E. destruct ((a <=? 0) || (tax <? 0)); [discriminate|].
+    unfold send_raw in E. destruct ((a <=? 0) || lim || (tax <? 0)); [discriminate|].
     destruct (erc20_of (table s) c d0); [|discriminate].
     destruct (f 0%nat || (bal s u d0 <? a + tax)); [discriminate|]. destruct (f 1%nat); [discriminate|].
     inversion E; subst. simpl. lia.
@@ -732,22 +1146,55 @@ Proof.
     apply create_batch_supply in E1. unfold sweep in E2. apply sweep_loop_supply in E2.
     rewrite E2, E1. simpl; lia.
   - inversion E; subst. simpl. lia.
+  - (* governance writes the denom table *) inversion E; subst. simpl. lia.
+  - (* token admin writes the denom table *)
+    apply atomically_cases in E as [[-> E]|[-> ->]]; [|simpl; lia].
+    unfold map_admin_raw in E. destruct (f 0%nat); [discriminate|]. destruct (negb auth); [discriminate|].
+    destruct (denom_of (table s) c k); [discriminate|]. inversion E; subst. simpl. lia.
+Qed.
+
+Lemma run_sub_supply : forall tr s d,
+  Forall (fun o => sub_op o = true) tr -> Inv s ->
+  supply (run s tr) d - supply s d = deposits_of1 s tr d - executed_of1 s tr d.
+Proof.
+  induction tr as [|a r IH]; intros s d F I; simpl; [lia|].
+  inversion F as [|? ? Fa Fr]; subst.
+  destruct (step s a) as [s1 o1] eqn:E. simpl.
+  pose proof (step_supply1 s a s1 o1 d (sub_not_full _ Fa) I E) as S1.
+  assert (I1 : Inv s1).
+  { unfold step in E. destruct (step3 s a) as [[s2 o2] n2] eqn:E3. simpl in E. inversion E; subst.
+    apply (step3_inv_sub _ _ _ _ _ Fa I E3). }
+  specialize (IH s1 d Fr I1). lia.
+Qed.
+
+Lemma step_supply : forall s o s' out d,
+  Inv s -> step s o = (s', out) ->
+  supply s' d - supply s d = dep_amount s o out d - exe_amount s o out d.
+Proof.
+  intros s o s' out d I H. destruct (is_full o) eqn:NF.
+  - destruct o; try (simpl in NF; discriminate NF).
+    assert (X : s' = fst (step s (OEndBlockFull h now groups ests f pf))) by now rewrite H.
+    subst s'. rewrite step_full_run. cbn [dep_amount exe_amount].
+    apply run_sub_supply; [apply end_block_full_ok | exact I].
+  - rewrite (step_supply1 s o s' out d NF I H).
+    destruct o; try (simpl in NF; discriminate NF); reflexivity.
 Qed.
 
 Theorem supply_delta_only_attested_proof : forall tb b0 sup0 ops d,
-  table_wf tb ->
+  table_wf tb -> guarded (init tb b0 sup0) ops = true ->
   let s0 := init tb b0 sup0 in
   supply (run s0 ops) d - sup0 d = deposits_of s0 ops d - executed_of s0 ops d.
 Proof.
-  intros tb b0 sup0 ops d WF s0.
-  assert (G : forall ops s, table_wf (table s) -> Inv s ->
+  intros tb b0 sup0 ops d WF G0 s0.
+  assert (G : forall ops s, InvT s -> guarded s ops = true ->
             supply (run s ops) d - supply s d = deposits_of s ops d - executed_of s ops d).
-  { clear. induction ops as [|o r IH]; intros s WF I; simpl; [lia|].
-    destruct (step s o) as [s' out] eqn:E. simpl.
-    pose proof (step_supply s o s' out d I E) as S1.
-    destruct (step_inv s o WF I) as [I1 T1]. rewrite E in I1, T1. simpl in I1, T1.
-    specialize (IH s'). rewrite T1 in IH. specialize (IH WF I1). lia. }
-  specialize (G ops s0 WF (init_inv tb b0 sup0)). exact G.
+  { clear. induction ops as [|o r IH]; intros s IT G; simpl; [lia|].
+    simpl in G. apply andb_true_iff in G as [G1 G2].
+    destruct (step s o) as [s' out] eqn:E. simpl in *.
+    pose proof (step_supply s o s' out d (it_inv _ IT) E) as S1.
+    pose proof (step_InvT s o IT G1) as IT1. rewrite E in IT1. simpl in IT1.
+    specialize (IH s' IT1 G2). lia. }
+  specialize (G ops s0 (init_InvT tb b0 sup0 WF) G0). exact G.
 Qed.
 
 (** * Housekeeping moves no coins; the ghost fates grow only by cancel / executed *)
@@ -833,19 +1280,19 @@ Proof.
 Qed.
 
 (** a successful send locks amount+tax and puts the transfer, with the next id, in the pool *)
-Theorem send_ok_locks_and_pools_proof : forall s u c d a tax f s',
-  step s (OSend u c d a tax f) = (s', Ok) ->
+Theorem send_ok_locks_and_pools_proof : forall s u c d a tax lim f s',
+  step s (OSend u c d a tax lim f) = (s', Ok) ->
   exists k, erc20_of (table s) c d = Some k /\
     last_tx s' = last_tx s + 1 /\
     pool s' = pool_insert (mkT (last_tx s + 1) u c k a tax) (pool s) /\
     bal s' u d = bal s u d - (a + tax) /\ escrow s' d = escrow s d + (a + tax) /\
     batches s' = batches s /\ supply s' = supply s.
 Proof.
-  intros s u c d a tax f s' H. unfold step in H. simpl in H.
-  destruct (atomically s (send_raw f u c d a tax s)) as [[s1 o1] n] eqn:E. simpl in H.
+  intros s u c d a tax lim f s' H. unfold step in H. simpl in H.
+  destruct (atomically s (send_raw f u c d a tax lim s)) as [[s1 o1] n] eqn:E. simpl in H.
   inversion H; subst s1 o1; clear H.
   apply atomically_cases in E as [[_ E]|[X _]]; [|discriminate].
-  unfold send_raw in E. destruct ((a <=? 0) || (tax <? 0)); [discriminate|].
+  unfold send_raw in E. destruct ((a <=? 0) || lim || (tax <? 0)); [discriminate|].
   destruct (erc20_of (table s) c d) as [k|]; [|discriminate].
   destruct (f 0%nat || (bal s u d <? a + tax)); [discriminate|]. destruct (f 1%nat); [discriminate|].
   inversion E; subst s' n; clear E. exists k. simpl. unfold upd2, upd. rewrite !Z.eqb_refl. simpl.
@@ -905,24 +1352,24 @@ Proof.
 Qed.
 
 Theorem fates_only_by_cancel_and_executed_proof : forall s o s' out,
-  step s o = (s', out) ->
+  is_full o = false -> step s o = (s', out) ->
   (refunded s' = refunded s \/ exists u i f, o = OCancel u i f /\ out = Ok /\ refunded s' = i :: refunded s) /\
   (burned s' = burned s \/ exists c k n eth f b, o = OExecuted c k n eth f /\ out = Ok /\
       find_batch k n (batches s) = Some b /\ burned s' = map t_id (b_txs b) ++ burned s).
 Proof.
-  intros s o s' out H.
+  intros s o s' out NF H.
   destruct (moves_no_coins o) eqn:M.
   { pose proof (batching_moves_no_coins_proof s o M) as F. rewrite H in F. simpl in F.
     destruct F as (_&_&_&_&F5&F6&_). auto. }
   destruct out.
   2:{ apply failed_op_is_noop_proof in H; [subst; auto|]. destruct o; try discriminate; reflexivity. }
-  destruct o; simpl in M; try discriminate.
+  destruct o; simpl in M; try discriminate; try (simpl in NF; discriminate NF).
   - apply send_ok_locks_and_pools_proof in H as H'. clear H'.
     unfold step in H; simpl in H.
-    destruct (atomically s (send_raw f u c d a tax s)) as [[s1 o1] n] eqn:E. simpl in H.
+    destruct (atomically s (send_raw f u c d a tax lim s)) as [[s1 o1] n] eqn:E. simpl in H.
     inversion H; subst s1 o1; clear H.
     apply atomically_cases in E as [[_ E]|[X _]]; [|discriminate].
-    unfold send_raw in E. destruct ((a <=? 0) || (tax <? 0)); [discriminate|].
+    unfold send_raw in E. destruct ((a <=? 0) || lim || (tax <? 0)); [discriminate|].
     destruct (erc20_of (table s) c d) as [k|]; [|discriminate].
     destruct (f 0%nat || _); [discriminate|]. destruct (f 1%nat); [discriminate|].
     inversion E; subst; simpl; auto.
@@ -943,17 +1390,24 @@ Proof.
     + apply to_comm_fates in E as [A B]. simpl in A, B. auto.
     + apply to_comm_fates in E as [A B]. simpl in A, B. auto.
   - unfold step in H; simpl in H. inversion H; subst; auto.
+  - unfold step in H; simpl in H. inversion H; subst; auto.
+  - unfold step in H; simpl in H.
+    destruct (atomically s (map_admin_raw f c d k auth s)) as [[s1 o1] n] eqn:E. simpl in H.
+    inversion H; subst s1 o1; clear H.
+    apply atomically_cases in E as [[_ E]|[X _]]; [|discriminate].
+    unfold map_admin_raw in E. destruct (f 0%nat); [discriminate|]. destruct (negb auth); [discriminate|].
+    destruct (denom_of (table s) c k); [discriminate|]. inversion E; subst; simpl; auto.
 Qed.
 
 (** an accepted transfer stays accepted: ids are never reused *)
-Theorem last_tx_monotone_proof : forall s o, last_tx s <= last_tx (fst (step s o)).
+Lemma last_tx_nf : forall s o, is_full o = false -> last_tx s <= last_tx (fst (step s o)).
 Proof.
-  intros s o. destruct (moves_no_coins o) eqn:M.
+  intros s o NF. destruct (moves_no_coins o) eqn:M.
   { pose proof (batching_moves_no_coins_proof s o M) as (_&_&_&_&_&_&F). lia. }
   destruct (step s o) as [s' out] eqn:H. simpl.
   destruct out.
   2:{ apply failed_op_is_noop_proof in H; [subst; lia|]. destruct o; try discriminate; reflexivity. }
-  destruct o; simpl in M; try discriminate.
+  destruct o; simpl in M; try discriminate; try (simpl in NF; discriminate NF).
   - apply send_ok_locks_and_pools_proof in H as (k & _ & L & _). lia.
   - unfold step in H; simpl in H.
     destruct (atomically s (cancel_raw f u i s)) as [[s1 o1] n] eqn:E. simpl in H.
@@ -988,145 +1442,27 @@ Proof.
     + apply G in E. simpl in E. lia.
     + apply G in E. simpl in E. lia.
   - unfold step in H; simpl in H. inversion H; subst; lia.
+  - unfold step in H; simpl in H. inversion H; subst; simpl; lia.
+  - unfold step in H; simpl in H.
+    destruct (atomically s (map_admin_raw f c d k auth s)) as [[s1 o1] n] eqn:E. simpl in H.
+    inversion H; subst s1 o1; clear H.
+    apply atomically_cases in E as [[_ E]|[X _]]; [|discriminate].
+    unfold map_admin_raw in E. destruct (f 0%nat); [discriminate|]. destruct (negb auth); [discriminate|].
+    destruct (denom_of (table s) c k); [discriminate|]. inversion E; subst; simpl; lia.
 Qed.
 
-(** * What a pending transfer owes is fixed when it is sent *)
-(** No operation rewrites a pending transfer record: every record pending after a step was pending
-    before it, or is the one a successful send has just created from its inputs (amount and the
-    tax charged at send time).  Together with [cancel_ok_refunds_in_full] / [executed_ok_burns_batch]
-    (refund and burn use [owed t] of the stored record): governance changes of the tax settings
-    between send and cancel / execution cannot change what is refunded or burned. *)
-Lemma build_pending : forall f c k max now s s' out n,
-  build f c k max now s = (s', out, n) -> Permutation (pending s') (pending s).
+Lemma run_sub_last_tx : forall tr s, Forall (fun o => sub_op o = true) tr -> last_tx s <= last_tx (run s tr).
 Proof.
-  intros f c k max now s s' out n H. unfold build in H.
-  apply atomically_cases in H as [[-> H]|[-> ->]]; [|reflexivity].
-  unfold build_raw in H. destruct (max <=? 0); [discriminate|].
-  destruct (pick c k (Z.to_nat max) (pool s)) as [picked rest] eqn:EP. destruct picked as [|t0 pk].
-  - inversion H; reflexivity.
-  - destruct (f 0%nat); [discriminate|]. simpl in H. destruct (f 1%nat); [discriminate|].
-    destruct (f 2%nat); [discriminate|]. inversion H; subst s' n; clear H.
-    pose proof (pick_perm _ _ _ _ _ _ EP) as HP.
-    unfold pending; simpl.
-    rewrite (flat_map_perm _ _ b_txs _ _ (batch_insert_perm _ _)). simpl.
-    rewrite <- HP. change (t0 :: pk ++ flat_map b_txs (batches s)) with ((t0 :: pk) ++ flat_map b_txs (batches s)).
-    rewrite app_assoc. apply Permutation_app_tail. apply Permutation_app_comm.
+  induction tr as [|a r IH]; intros s F; simpl; [lia|].
+  inversion F as [|? ? Fa Fr]; subst.
+  pose proof (last_tx_nf s a (sub_not_full _ Fa)). specialize (IH (fst (step s a)) Fr). lia.
 Qed.
 
-Lemma cancel_batch_pending : forall f k n s s' out m,
-  cancel_batch f k n s = (s', out, m) -> Permutation (pending s') (pending s).
+Theorem last_tx_monotone_proof : forall s o, last_tx s <= last_tx (fst (step s o)).
 Proof.
-  intros f k n s s' out m H. unfold cancel_batch in H.
-  apply atomically_cases in H as [[-> H]|[-> ->]]; [|reflexivity].
-  unfold cancel_batch_raw in H.
-  destruct (find_batch k n (batches s)) as [b|] eqn:EF; [|discriminate]. simpl in H.
-  destruct (f 0%nat); [discriminate|]. inversion H; subst s' m; clear H.
-  pose proof (find_remove_first_perm _ _ _ _ EF) as HP.
-  unfold pending; simpl. rewrite pool_insert_all_perm.
-  rewrite (flat_map_perm _ _ b_txs _ _ HP). simpl.
-  rewrite <- !app_assoc. rewrite (app_assoc (b_txs b)). rewrite (app_assoc (pool s)).
-  apply Permutation_app_tail. apply Permutation_app_comm.
-Qed.
-
-Lemma create_loop_pending : forall f es n now s s' out m,
-  create_loop f n es now s = (s', out, m) -> Permutation (pending s') (pending s).
-Proof.
-  intros f es; induction es as [|[[c d] k0] r IH]; intros n now s s' out m H; simpl in H.
-  - inversion H; reflexivity.
-  - destruct (erc20_of (table s) c d) as [k|]; [|inversion H; reflexivity].
-    destruct (build (shift f n) c k batch_size now s) as [[s1 o1] m1] eqn:EB.
-    apply build_pending in EB. destruct o1.
-    + apply IH in H. etransitivity; eauto.
-    + inversion H; subst; exact EB.
-Qed.
-
-Lemma sweep_loop_pending : forall f bs n now s s' out m,
-  sweep_loop f n bs now s = (s', out, m) -> Permutation (pending s') (pending s).
-Proof.
-  intros f bs; induction bs as [|b r IH]; intros n now s s' out m H; simpl in H.
-  - inversion H; reflexivity.
-  - destruct (b_timeout b <? now); [|eapply IH; eauto].
-    destruct (cancel_batch (shift f n) (b_contract b) (b_nonce b) s) as [[s1 o1] m1] eqn:EB.
-    apply cancel_batch_pending in EB. destruct o1.
-    + apply IH in H. etransitivity; eauto.
-    + inversion H; subst; exact EB.
-Qed.
-
-Lemma create_batch_pending : forall f n h now s s' out m,
-  create_batch f n h now s = (s', out, m) -> Permutation (pending s') (pending s).
-Proof.
-  intros f n h now s s' out m H. unfold create_batch in H.
-  destruct (h mod batch_period =? 0); [eapply create_loop_pending; eauto | inversion H; reflexivity].
-Qed.
-
-Lemma to_comm_pending : forall f idx d a s s' out m,
-  to_comm f idx d a s = (s', out, m) -> pending s' = pending s.
-Proof.
-  intros f idx d a s s' out m H. unfold to_comm in H. destruct (f idx); inversion H; reflexivity.
-Qed.
-
-Theorem pending_records_immutable_proof : forall s o s' out t,
-  step s o = (s', out) -> In t (pending s') ->
-  In t (pending s) \/
-  exists u c d a tax f k, o = OSend u c d a tax f /\ out = Ok /\ erc20_of (table s) c d = Some k /\
-                          t = mkT (last_tx s + 1) u c k a tax.
-Proof.
-  intros s o s' out t H HI. unfold step in H. destruct (step3 s o) as [[s1 o1] n] eqn:E. simpl in H.
-  inversion H; subst s1 o1; clear H.
-  destruct o; simpl in E.
-  - (* send *) apply atomically_cases in E as [[-> E]|[-> ->]]; [|now left].
-    unfold send_raw in E. destruct ((a <=? 0) || (tax <? 0)); [discriminate|].
-    destruct (erc20_of (table s) c d) as [k|] eqn:EK; [|discriminate].
-    destruct (f 0%nat || _); [discriminate|]. destruct (f 1%nat); [discriminate|].
-    inversion E; subst s' n; clear E. unfold pending in HI; simpl in HI.
-    apply in_app_or in HI as [HI|HI].
-    + apply (Permutation_in _ (pool_insert_perm _ _)) in HI. destruct HI as [HI|HI].
-      * right. exists u, c, d, a, tax, f, k. repeat split; auto.
-      * left. unfold pending. apply in_or_app. now left.
-    + left. unfold pending. apply in_or_app. now right.
-  - (* cancel *) left. apply atomically_cases in E as [[-> E]|[-> ->]]; [|exact HI].
-    unfold cancel_raw in E. destruct (i <? 1); [discriminate|].
-    destruct (find (fun t => t_id t =? i) (pool s)) as [t0|] eqn:EF; [|discriminate].
-    destruct (negb (t_sender t0 =? u)); [discriminate|].
-    destruct (tx_denom (table s) t0); [|discriminate]. simpl in E.
-    destruct (f 0%nat || _); [discriminate|]. destruct (f 1%nat); [discriminate|].
-    inversion E; subst s' n; clear E. unfold pending in *; simpl in HI.
-    pose proof (find_remove_first_perm _ _ _ _ EF) as HP.
-    apply in_app_or in HI as [HI|HI]; apply in_or_app; [left|now right].
-    apply (Permutation_in _ (Permutation_sym HP)). now right.
-  - left. apply build_pending in E. eapply Permutation_in; eauto.
-  - left. apply cancel_batch_pending in E. eapply Permutation_in; eauto.
-  - (* set gas *) left. apply atomically_cases in E as [[-> E]|[-> ->]]; [|exact HI].
-    unfold set_gas_raw in E. destruct (find_batch k n0 (batches s)) as [b|]; [|discriminate].
-    destruct (0 <? b_gas b); [discriminate|]. destruct (f 0%nat); [discriminate|].
-    inversion E; subst s' n; clear E. unfold pending in *; simpl in HI.
-    now rewrite flat_map_set_gas in HI.
-  - (* executed *) left. apply atomically_cases in E as [[-> E]|[-> ->]]; [|exact HI].
-    unfold executed_raw in E. destruct (find_batch k n0 (batches s)) as [b|] eqn:EF; [|discriminate].
-    destruct (negb (b_chain b =? c)); [discriminate|]. destruct (b_timeout b <=? eth); [discriminate|].
-    destruct (denom_of (table s) c k); [|discriminate]. destruct (f 0%nat || _); [discriminate|].
-    inversion E; subst s' n; clear E. unfold pending in *; simpl in HI.
-    pose proof (find_remove_first_perm _ _ _ _ EF) as HP.
-    apply in_app_or in HI as [HI|HI]; apply in_or_app; [now left | right].
-    apply (Permutation_in _ (Permutation_sym (flat_map_perm _ _ b_txs _ _ HP))). simpl.
-    apply in_or_app. now right.
-  - (* deposit *) left. apply atomically_cases in E as [[-> E]|[-> ->]]; [|exact HI].
-    unfold deposit_raw in E. destruct (denom_of (table s) c k) as [d|]; [|discriminate].
-    destruct (f 0%nat || (a <=? 0)); [discriminate|].
-    destruct r as [u| |].
-    + destruct (f 1%nat).
-      * apply to_comm_pending in E. rewrite E in HI. exact HI.
-      * inversion E; subst. exact HI.
-    + apply to_comm_pending in E. rewrite E in HI. exact HI.
-    + apply to_comm_pending in E. rewrite E in HI. exact HI.
-  - left. apply create_batch_pending in E. eapply Permutation_in; eauto.
-  - left. unfold sweep in E. apply sweep_loop_pending in E. eapply Permutation_in; eauto.
-  - left. unfold end_block in E.
-    destruct (create_batch f 0%nat h now s) as [[s1 o1] n1] eqn:E1.
-    destruct (sweep f n1 now s1) as [[s2 o2] n2] eqn:E2. inversion E; subst.
-    apply create_batch_pending in E1. unfold sweep in E2. apply sweep_loop_pending in E2.
-    eapply Permutation_in; [|exact HI]. etransitivity; eauto.
-  - left. inversion E; subst. exact HI.
+  intros s o. destruct (is_full o) eqn:NF; [|now apply last_tx_nf].
+  destruct o; try (simpl in NF; discriminate NF).
+  rewrite step_full_run. apply run_sub_last_tx. apply end_block_full_ok.
 Qed.
 
 (** * The model is the model of the code that is there now (translator facts) *)
@@ -1145,3 +1481,33 @@ Lemma code_shape_proof :
   /\ deposit_fallback_on_send_error = true /\ sweep_cancels_when_timeout_lt_now = true
   /\ batch_size = 100 /\ batch_period = 50 /\ batch_timeout_secs = 600.
 Proof. repeat split; reflexivity. Qed.
+
+(** round 2: who writes the denom table and under which check, that nothing deletes from it, where
+    the transfer-limit check sits, the steps of the end-blocker's tally / estimate pass, and how the
+    cached-context functions behave when a collaborator panics: on a tree without "fix: do not
+    commit a half-done batch change when a collaborator panics" only processAttestation is safe
+    (the harness then reports the known finding from its own probe of the real keeper and injects
+    no panics); with it all five are, which is what [eb_sub] models.  Any other set breaks this
+    theorem. *)
+Lemma code_shape2_proof :
+  (panic_safe_commit_fns = ["processAttestation"]
+   \/ panic_safe_commit_fns = ["BuildOutgoingTXBatch"; "CancelOutgoingTXBatch"; "OutgoingTxBatchExecuted"; "UpdateBatchGasEstimate"; "processAttestation"])
+  /\ endblocker_recovers_panics = true
+  /\ denom_table_writers = ["setDenomToERC20"] /\ denom_table_deleters = []
+  /\ setDenomToERC20_callers = ["CreateTestEnv"; "InitGenesis"; "NewSkywayProposalHandler"; "SetERC20MappingProposal"; "SetERC20ToTokenDenom"]
+  /\ setDenomToERC20_callers_checking_binding = ["SetERC20ToTokenDenom"]
+  /\ order_setDenomToERC20 = ["GetDenomToERC20Key"; "GetERC20ToDenomKey"]
+  /\ order_SetERC20ToTokenDenom = ["GetChainInfo"; "GetAuthorityMetadata"; "GetDenomOfERC20"; "setDenomToERC20"]
+  /\ order_AddToOutgoingPool_checks = ["UpdateBridgeTransferUsageWithLimit"; "bridgeTaxAmount"; "GetERC20OfDenom"; "SendCoinsFromAccountToModule"]
+  /\ order_createBatch = ["GetAllERC20ToDenoms"; "GetERC20OfDenom"; "BuildOutgoingTXBatch"]
+  /\ order_TryAttestation = ["SetLastObservedEthereumBlockHeight"; "setLastObservedSkywayNonce"; "SetAttestation"; "processAttestation"; "emitObservedEvent"]
+  /\ order_emitObservedEvent = ["GetChainInfo"]
+  /\ order_processGasEstimates = ["IterateOutgoingTxBatches"; "GetBatchGasEstimateByNonceAndTokenContract"; "VerifyGasEstimates"; "UpdateBatchGasEstimate"]
+  /\ processAttestation_commits_only_on_handler_success_and_returns_nil = true.
+Proof. split; [first [left; reflexivity | right; reflexivity] | repeat split; reflexivity]. Qed.
+
+Lemma end_block_is_run_of_substeps_proof : forall s h now groups ests f pf,
+  let x := end_block_full f pf h now groups ests s in
+  fst (step s (OEndBlockFull h now groups ests f pf)) = run s (eb_tr x) /\
+  Forall (fun o => sub_op o = true) (eb_tr x).
+Proof. intros; split; [apply step_full_run | apply (proj2 (end_block_full_ok f pf h now groups ests s))]. Qed.
